@@ -72,8 +72,8 @@ def cooc_params(c, timed=False, multi=False):
     if timed and p["window_radii"] == 0:
         p["window_radii"] = 1
     p["normalize_windows"] = r.random() < 0.5
-    p["n_iter"] = r.choice([0, 0, 1, 2])
-    p["epsilon"] = r.choice([0, 0, 0.05, 0.2])
+    # (n_iter, epsilon) walk: EM on heavily thresholded matrices (rows that lose every cell) first
+    p["n_iter"], p["epsilon"] = grid(c, [(1, 0.5), (0, 0), (2, 0.2), (1, 0), (0, 0.2), (2, 0.5)])[0]
     p["n_threads"] = r.choice([1, 1, 2, 3])
     if r.random() < 0.3:
         p["coo_initial_memory"] = r.choice(["1k", "2k", "20k"])
@@ -220,6 +220,8 @@ def build(name, seed):
                         "random_state": r.choice([None, 0, 7])}
             if c.params["max_columns"] is not None and c.params["random_state"] is None:
                 c.params["random_state"] = 3     # an unseeded hash differs between two fits by design
+            if c.params["max_columns"] is None and r.random() < 0.5:
+                c.params["base_dictionary"] = {"a": 1, "ab": 2, "b": 1}
 
             c.make = lambda: V.LZCompressionVectorizer(**c.params)
         else:
@@ -308,10 +310,27 @@ def build(name, seed):
         n2 = r.randint(1, 6)
         M2 = np.floor(c.np.rand(n2, m) * 5 * (c.np.rand(n2, m) > 0.4))
         M2[M2.sum(axis=1) == 0, 0] = 2.0
-        c.X, c.X2 = sp.csr_matrix(M), sp.csr_matrix(M2)
+        def encode(A, fmt):
+            """One of the storage layouts scipy accepts for the same matrix."""
+            if fmt == "csr":
+                return sp.csr_matrix(A)
+            if fmt == "coo":
+                return sp.coo_matrix(A)
+            S = sp.csc_matrix(A)
+            if fmt == "csc_unsorted":          # valid CSC whose row indices are not sorted within the columns
+                for j in range(S.shape[1]):
+                    lo, hi = S.indptr[j], S.indptr[j + 1]
+                    perm = c.np.permutation(hi - lo)
+                    S.indices[lo:hi] = S.indices[lo:hi][perm]
+                    S.data[lo:hi] = S.data[lo:hi][perm]
+                S.has_sorted_indices = False
+            return S
+        fmt = grid(c, ["csc_unsorted", "csr", "csc", "coo"])[0] if name == "InformationWeightTransformer" else "csr"
+        c.X, c.X2 = encode(M, fmt), sp.csr_matrix(M2)
+        c.notes.append("format " + fmt)
         c.exact = False
         if name == "InformationWeightTransformer":
-            c.params = {"prior_strength": r.choice([1e-4, 0.1, 1.0]), "approx_prior": r.random() < 0.5,
+            c.params = {"prior_strength": r.choice([1e-4, 0.1, 1.0]), "approx_prior": (c.seed // 4) % 2 == 1,
                         "weight_power": r.choice([1.0, 2.0])}
             c.make = lambda: T.InformationWeightTransformer(**c.params)
             c.rtol = 1e-9
